@@ -222,6 +222,8 @@ impl World {
 
     pub fn register(&mut self, ctx: &Ctx, ident: usize, v1: bool, cap: usize) -> usize {
         let (server, client) = pipe(&self.seq, cap.max(1));
+        // every second connection stalls in flush (frame already buffered) instead of in poll_ready
+        client.set_stall_at_flush(self.conns.len() % 2 == 1);
         let guard = OnDisconnectGuard::empty(ident_key(ident));
         let conn_id = guard.connection_id();
         let version = if v1 { ProtocolVersion::V1 } else { ProtocolVersion::V2 };
